@@ -27,7 +27,7 @@ CLAIMS = {
             "(C01_step, C01_handleMessage, per-stage C01_handleRawMessage/_handleDialog/_getNextRequestHop/_responseHop/_insertSelf); the bytes on the wire carry "
             "exactly one Content-Length equal to the body size and nothing else but the owned header lines differs (C01_one_content_length, C01_content_length_value, "
             "C01_wire). From/To/CSeq are decoded in place and written back literally (Lemmas.roundTrips_all, after the repairs D6/D25). " + PIPE_TIE +
-            "Streams: pipe (requests, responses, dialogs, TCP, twins; legal non-canonical CSeq/From/To/Request-URI spellings; repeated messages; requests over the sibling transport), frame (queued serialisation), send (what reaches the next hop across connection faults).",
+            "Streams: pipe (requests, responses, dialogs, TCP, twins; legal non-canonical CSeq/From/To/Request-URI spellings; repeated messages; requests over the sibling transport or at another listener entry; requests whose relayed copy is at the limit of one UDP datagram), frame (queued serialisation; operational bufio ops), send (what reaches the next hop across connection faults).",
             "7 C01 and section 14", PIPE_NOTE + "The parsed-to-wire theorem starts from the parsed message; bytes-to-parsed is Lemmas.Message.parse_render (well-formed input). "
             "Known findings: Request-URI with empty password / leading-zero port is re-encoded canonically.", PIPE_TECH),
     "C02": ("proof", "Theorems (Props/C02.lean): a response is relayed iff after popping the top Via another entry remains (C02_relay, C02_no_via_no_send, C02_no_hop_no_send); "
@@ -42,7 +42,7 @@ CLAIMS = {
     "C04": ("proof", "Theorems (Props/C04.lean): pin table laws (C04_get_add_same/_other, C04_get_del_same/_other); a response with both tags from a backend establishes the pin "
             "(C04_pin_established); an in-dialog request goes to the pinned backend whatever the rotation cursor (C04_sticky_step, C04_sticky_any_rotation); the pin survives any "
             "other traffic and other dialogs (C04_pin_survives_other_traffic, C04_pin_survives_other_dialog, runBackend_keeps, C04_sticky); unpinned requests are balanced "
-            "(C04_unpinned_balanced). " + PIPE_TIE + "Streams: dialog histories (1-50 dialogs, 2-6 backends, both directions, every method), pins under a virtual clock.",
+            "(C04_unpinned_balanced). " + PIPE_TIE + "Streams: dialog histories (1-50 dialogs, 2-6 backends, both directions, every method, prefix-related Call-IDs, backends joining and leaving, Expires on in-dialog requests, time passing for the bindings - pipe pinwait), pins under a virtual clock, hand-over order of datagram bursts through the real UDP transport.",
             "7 C04", PIPE_NOTE + "Pin expiry is C15's subject.", PIPE_TECH),
     "C05": ("proof", "Theorems (Props/C05.lean) over the RoundRobinBackend model for every state and history: the target is a current member, an empty set drops (C05_member, "
             "C05_empty_drops, C05_nonempty_sends); any k consecutive dispatches over k backends are a permutation from any cursor (C05_window_perm, via List.rotate_perm) and counts "
@@ -66,7 +66,7 @@ CLAIMS = {
             "received (C08_body_bounded, C08_headers_bounded, C08_message_bounded, C08_stream_bounded); each extracted message consumes input (C08_progress); an undecodable stream "
             "closes the connection and the loop keeps serving (C08_undecodable_closes, C08_keeps_serving). Regenerated-fact obligation: the inventory of every index/slice/type "
             "assertion/map write with its guards equals the reviewed snapshot (Expected.Inventory). Tie: accept/reject of mutated byte strings vs the model, robustness oracle "
-            "(no panic, bounded allocation, no stall) through the real pipeline over UDP and TCP paths, liveness probes, the real TCP receive loop on streams that stop decoding (the connection must be closed); a dying process is attributed to the op that killed it.",
+            "(no panic, bounded allocation, no stall) through the real pipeline over UDP and TCP paths, liveness probes, the real TCP receive loop on streams that stop decoding (the connection must be closed); a dying process is attributed to the op that killed it; wire stage: largest-size datagrams routed back to their sender and two listener entries flooded towards unknown next-hop names, each followed by liveness probes; udpwire flood (20 000 datagrams while the consumer is busy). The bounds also hold for the operational bufio.Reader model over every segmentation (C08_bufio_stream_bounded, C08_bufio_buffer_bounded, C08_bufio_line_bounded).",
             "7 C08", "Partial: Go runtime, GC, channel back-pressure, DNS latency and kernel buffers are not modelled; nil dereferences are not inventoried.",
             "Lean 4 proof over a total model + kernel-checked inventory obligation + differential correspondence with robustness oracle"),
     "C09": ("proof", "Theorems (Props/C09.lean) over a lock/thread model (Side/Lockset.lean): mutual exclusion of the lock semantics (mutual_exclusion), every reachable state of "
@@ -77,13 +77,13 @@ CLAIMS = {
             "changes, pool, transport table and resolver traffic under the Go race detector, plus a real two-listener service started through startProxy, several backend connections dying at once, and bursts through the real UDP transport; every race report is a violation keyed by its two code locations; an op that never returns is a violation (watchdog).",
             "7 C09", "Partial: the Go memory model and scheduler are trusted (DRF-SC); the extractor's role assignment (which goroutine runs which function) is hand-written in "
             "Expected/Locks.lean; AddBackend/RemoveBackend send to the loop's event channel (capacity 1000) while holding the rotation lock - assumed never full.",
-            "Lean 4 proof (lockset discipline) + kernel-checked obligation on the regenerated access table + race-detector stress"),
+            "Lean 4 proof (lockset discipline) + kernel-checked obligation on the regenerated access table + race-detector stress (incl. TCP backend membership churn with liveness probes) + concurrent-use ops with sequential answers as reference (route conc, codec conc, wire pair) + TCP framing stream with queued serialisation"),
     "C10": ("proof", "Theorems (Props/C10.lean): what is decoded from a datagram is a function of its own bytes (C10_local, C10_within_datagram), stale buffer content is invisible "
             "(C10_stale_invisible), over-declared and truncated datagrams are rejected (C10_overdeclared_udp, C10_truncated_udp, ...), pool buffers are exclusive "
             "(C10_pool_invariant, C10_pool_exclusive, C10_pool_held_distinct). Regenerated-fact obligations on the reader (Expected.Reader: parse over b[:n], loop shape). "
             "Tie: every datagram goes through the REAL startParseMessage in a clean and in a dirty 64 KiB pooled buffer with deferred serialisation; "
             "stream udpwire drives the real UDPServerTransport (receive loop, parse loop, pool) on a loopback socket with datagrams of very different sizes "
-            "one after the other; pool exclusivity is an oracle on the implementation's answers.",
+            "one after the other, a 20 000-datagram flood while the consumer is busy (every message that comes out is intact and comes out at most once); wire focus c10: two listener entries of a real service relaying at the same time, every datagram checked at the backend; pool exclusivity is an oracle on the implementation's answers.",
             "7 C10", "Partial: kernel datagram boundaries and the scheduler are not modelled.", "Lean 4 proof + differential correspondence (clean/dirty buffers, queued serialisation)"),
     "C11": ("proof", "Theorems (Props/C11.lean): the messages extracted from a byte stream are a function of the stream, not of its segmentation (C11_segmentation_independent, "
             "C11_any_split_exact, C11_exact_messages, C11_messages_then); a line read in fragments is their concatenation, and the uncopied variant corrupts (C11_fragments_joined, "
@@ -99,24 +99,24 @@ CLAIMS = {
             "of other keys answers with the request's connection (C12_invariant, C12_registered_lookup, C12_two_connections_same_address); the registration key is the lookup key "
             "for every hop host (C12_registration_key_is_lookup_key) so the response is written on the request's connection and nowhere else (C12_request_registers, "
             "C12_response_on_request_connection, C12_same_hop_same_connection); a final response removes exactly its key (C12_remove_exact, C12_sendMessage_table). " + PIPE_TIE +
-            "Stream: 2-8 connection doubles, equal/different sent-by (IP literals and host names), received on/off, interleaved transactions, '-' in extension methods.",
-            "7 C12", PIPE_NOTE + "Connections are doubles in the in-package stage; real sockets are exercised by the wire stage of C07.", PIPE_TECH),
+            "Stream: 2-8 connection doubles, equal/different sent-by (IP literals and host names), received on/off, interleaved transactions, '-' in extension methods, RFC 2543 forks (cookie-less branches, same Call-ID and CSeq); wire focus c12: answers that take 5.6 s (thorough: up to 31 s) return on the request's real TCP connection, and an answer after the sender closed its connection is dialled to the Via address.",
+            "7 C12", PIPE_NOTE + "Connections are doubles in the in-package stage; real sockets are exercised by the wire stage (focus c12).", PIPE_TECH),
     "C13": ("proof", "Theorems (Props/C13.lean): the own top Route entry is consumed exactly when it designates the receiving listener (C13_own_route, C13_designates, C13_port); "
             "the next hop is the first remaining entry (C13_hop, C13_hop_abs, C13_hop_none); keep/strip of the next-hop entry by configuration (C13_keep, C13_strip); "
             "the other stacks are untouched (C13_other_stacks); lifted to step (C13_step). " + PIPE_TIE + "Streams: Route sets of 0-6 entries in any layout, own entry by address/alias/with "
-            "and without port, near misses, the listener named twice, messages over either transport of a listener entry; cfg (every spelling of the keepNextHopRoute setting through toKeepNextHopRoute).",
+            "and without port, near misses, the listener named twice, messages over either transport of a listener entry; requests on accepted TCP connections whose registration fails (no Via, no branch); cfg (every spelling of the keepNextHopRoute setting through toKeepNextHopRoute; the host table built from the global and the service's hosts sections - the aliases a Route entry may name).",
             "7 C13", PIPE_NOTE, PIPE_TECH),
     "C14": ("proof", "Theorems (Props/C14.lean, 52): per-type round-trip laws parse(encode x) = x and re-encode stability on explicit decidable domains, and accessor theorems "
             "(host, port, transport, tag, branch, received, rport) for key/value parameters, URI parameters and headers, SIP URIs, absolute URIs, addr-spec, name-addr, Via entries "
             "and lists, Route/Record-Route entries and lists; From/To/CSeq are lossless for EVERY text (C14_from_to_lossless, C14_cseq_lossless). Tie: grammar-directed "
             "differential stream whose expected decodes and accessor values are computed from the abstract value independently of code and model (every text is decoded twice, the first decoded value consumed in between); stdlib micro-correspondence "
-            "underneath (stream std). Obligation on regenerated facts: the program has no process-wide state beyond four known variables (Expected.Globals).",
+            "underneath (stream std); codec conc: the decoders run from four goroutines at once, every report equals the one obtained alone. Obligation on regenerated facts: the program has no process-wide state beyond four known variables (Expected.Globals).",
             "7 C14", "Known findings (known_findings.json): IPv6 references, ';'/'?' in user parts (named by the property), empty password, port with leading zeros.",
             "Lean 4 proof (round-trip laws on decidable domains) + grammar-directed differential correspondence"),
     "C15": ("proof", "Theorems (Props/C15.lean) over the DialogBasedBackend model with explicit time, for arbitrary histories of add/get/remove at non-decreasing instants: a pin is "
             "honoured strictly before t0+max(timeout,Expires) whatever else happens (C15_honoured, C15_lifetime), never from that instant on (C15_not_after), gone after remove "
             "(C15_terminated), and after any add no entry that expired more than one timeout earlier survives (sweepInv_run, C15_purged). Tie: differential histories on the real "
-            "object under a virtual clock (stored instants shifted); the dialog histories of the pipeline (re-pins, rejected re-INVITEs); a two-service configuration started through startProxies in real time (the dialog timeout of one service does not leak into the next).",
+            "object under a virtual clock (stored instants shifted); the dialog histories of the pipeline (re-pins, rejected re-INVITEs); a two-service configuration started through startProxies in real time (the dialog timeout of one service does not leak into the next; a service's own dialogTimeout beats DEFAULT_DIALOG_TIMEOUT of the environment); time passing inside the pipeline stage (pipe pinwait: lifetimes from Side.Pins.lifetime) with Expires headers on in-dialog requests - after the lifetime, and after a terminating NOTIFY, two consecutive requests of the dialog reach two different backends (sound by Props.C05.C05_consecutive_distinct).",
             "7 C15", "Partial: wall-clock behaviour (timer granularity, scheduling) is not modelled.", "Lean 4 proof (history invariants) + virtual-clock differential correspondence"),
     "C16": ("proof", "Theorems (Props/C16.lean): the identifier is direction independent (C16_symmetric, C16_direction_independent), unaffected by display names, URI parameters, "
             "other header parameters and header spelling (C16_decorations, C16_display_name, C16_other_params, C16_header_spelling), absent without either tag (C16_no_from_tag, "
@@ -132,13 +132,13 @@ CLAIMS = {
             "7 C17", PIPE_NOTE, "Lean 4 proof (relation lifted through the pipeline) + metamorphic differential correspondence"),
     "C18": ("proof", "Theorems (Props/C18.lean): characterisation of pattern matching (glob_literal, glob_star, glob_cons), the precedence literal > first matching pattern in "
             "configuration order > default > none (C18_literal_wins, C18_wildcard_next, C18_default_last, C18_precedence), determinism (C18_deterministic), next-hop port defaults. "
-            "Obligation on regenerated facts: FindRoute ranges over no map (Expected.Routes). Tie: exhaustive tables over the pattern universe x all hosts, each lookup repeated 50 times; tables built from a YAML configuration through createPreConfigRoute (several dests per entry), the same configuration rebuilt several times; the request pipeline with repeated To hosts.",
+            "Obligation on regenerated facts: FindRoute ranges over no map (Expected.Routes). Tie: exhaustive tables over the pattern universe x all hosts, each lookup repeated 50 times; tables built from a YAML configuration through createPreConfigRoute (several dests per entry), the same configuration rebuilt several times; the request pipeline with repeated To hosts and To URIs with explicit ports; route conc: four goroutines look hosts up in one table, every answer equals the answer given alone.",
             "7 C18", "Assumption (validated exhaustively by the stream, not a theorem): on patterns over [A-Za-z0-9._*-] Go's regexp of the escaped pattern decides the model's glob.",
             "Lean 4 proof + exhaustive differential correspondence"),
     "C19": ("proof", "Theorems (Props/C19.lean): for every history of duplicate-free resolutions and failures the rotation list, its map and the proxy's address index hold exactly the "
             "current resolved set (C19_tracks, C19_history); up to three consecutive failures change nothing, the fourth empties a non-empty set (C19_tolerance, C19_fourth_empties, "
             "failLimit_is_three). Tie: exhaustive (length 3/5 over subsets of 3) and random outcome histories fed to the real addressResolved, through a hand-assembled rotation and "
-            "through the real CreateRoundRobinBackend with the global resolver; for udp rotations one full dispatch round is observed on real sockets bound at every candidate address (who receives, not only what the tables say).",
+            "through the real CreateRoundRobinBackend with the global resolver; for udp rotations one full dispatch round is observed on real sockets bound at every candidate address (who receives, not only what the tables say); resolution failures of several kinds (generic, no such host, time-out); the pipeline dialog stream with backends joining and leaving (an address that answered before it joined is recognised as a backend afterwards).",
             "7 C19", "Partial: notifications run in fresh goroutines; the model is the synchronous composition the property's quiescence grants (the harness waits until no goroutine "
             "has notifyAddressChanged on its stack). Two names with overlapping images are outside the theorem.",
             "Lean 4 proof (membership invariants) + exhaustive differential correspondence"),
